@@ -1,6 +1,7 @@
 SPECIFICATION Spec
 CONSTANTS Devs = {}
-          Cases <- MConc3
+          Cases <- MCSel
+          Family = "MConc3"
 INVARIANTS TypeOK VisitedSafe VisitedExact DepthShortest FetchedExact LocalExact HandlerCidRight
            HandlerCallsRight ProvidedExact ResultRight NoHandlerCrash
 PROPERTY Termination
